@@ -111,3 +111,16 @@ pub fn threshold_lengths(max_pow: u32) -> Vec<usize> {
 pub fn repeat_symbols(symbols: &[&str], n: usize) -> String {
     (0..n).map(|i| symbols[i % symbols.len()]).collect()
 }
+
+/// Texts of `n` repetitions of one multi-byte character (2, 3 and 4 bytes wide) after 0..width ASCII
+/// bytes: for every byte offset a threshold could sit at, one of the texts has a character that
+/// straddles it (a byte-indexed cut there is not a character boundary) and one has a boundary there.
+pub fn byte_aligned_texts(n: usize) -> Vec<String> {
+    let mut out = vec![];
+    for ch in ["ä", "€", "😀"] {
+        for shift in 0..ch.len() {
+            out.push(format!("{}{}", "a".repeat(shift), ch.repeat(n)));
+        }
+    }
+    out
+}
